@@ -11,3 +11,8 @@ def check(run):
     crules.reserve_rules(run, r2, ast)
     crules.alloc_rules(run, r2, ast)
     crules.model_rules(run, r2, ast, parts=("params",))
+    r3 = "C08-closure"
+    run.rule(r3, "'D is acceptable where B is expected' is always answered from covariant_classes (the closure computed from the merged direct-base relation), "
+             "never from the lists that only hold what registration records name: specificity order, next's base filter, applicability", floor=9)
+    crules.order_rules(run, r3, r3, ast)
+    crules.applicable_rules(run, r3, ast)
